@@ -26,6 +26,7 @@
 #include <stdarg.h>
 #include <inttypes.h>
 #include <unistd.h>
+#include <errno.h>
 #include <fcntl.h>
 #include <signal.h>
 #include <sys/mman.h>
@@ -516,6 +517,15 @@ int main(int argc, char **argv)
             vf_count_dyn("cases-run-under-a-directed-rounding-mode", m != 3);
         }
 #endif
+        /* every configuration: the calling thread's errno is execution environment too. It is whatever an earlier, unrelated call left there; a
+         * routine that tests it must have cleared it first (seeded change C15-M: `errno == ERANGE` after pow() without `errno = 0` before it
+         * turns every plan into "hold position" for callers whose errno is stale). A pure function of (seed, case). */
+        {
+            static int const vf_errnos[8] = {0, ERANGE, EDOM, ENOMEM, EINTR, EINVAL, EAGAIN, ERANGE};
+            unsigned const m = (unsigned)(vf_hash64(vf.seed * 0x9E3779B97F4A7C15ULL + 0xe44, c) >> 37) & 7;
+            errno = vf_errnos[m];
+            vf_count_dyn("cases-entered-with-a-stale-errno", m != 0);
+        }
         if (case_timeout) { alarm(case_timeout); }
         if (vf.explain) { fprintf(stderr, "=== %s case %" PRIu64 " seed %" PRIu64 " config %s\n", VF_PROP, c, vf.seed, vf.config); }
         vf_case(c, &r);
